@@ -19,7 +19,10 @@ import (
 	"github.com/tikv/pd/server/config"
 	"github.com/tikv/pd/server/member"
 	"github.com/tikv/pd/server/tso"
+	"github.com/pingcap/log"
 	"go.etcd.io/etcd/clientv3"
+	"go.uber.org/zap"
+	"go.uber.org/zap/zapcore"
 
 	"pdverif/internal/coqfmt"
 	"pdverif/internal/etcdx"
@@ -783,6 +786,106 @@ func scenarios() [][]op {
 		// unacknowledged reset save (recorded finding): SetTSO(+1h) applied but reported failed, then a periodic save
 		{{K: "Elect", M: 0}, {K: "Sync", M: 0}, {K: "Read"}, {K: "Set", M: 0, TS: far(), Rel: "one-hour-ahead", Out: 2}, {K: "Read"},
 			{K: "Sleep", Us: 6000}, {K: "Upd", M: 0}, {K: "State", M: 0}, {K: "Read"}},
+		// a reset whose window save fails WITHOUT being applied, the reset is retried and accepted, timestamps are granted,
+		// then another member takes over: nothing the first member remembers about its failed save may stand in for the
+		// stored window (the retry must save), or the successor starts one hour below timestamps already returned
+		{{K: "Elect", M: 0}, {K: "Sync", M: 0}, {K: "Read"}, {K: "Set", M: 0, TS: far(), Rel: "one-hour-ahead", Out: 1}, {K: "State", M: 0}, {K: "Read"},
+			{K: "Set", M: 0, TS: far() + 1<<18, Rel: "one-hour-ahead"}, {K: "State", M: 0}, {K: "Read"}, {K: "Gen", M: 0, Count: 3}, {K: "ResetGroup", M: 0},
+			{K: "Elect", M: 1}, {K: "Sync", M: 1}, {K: "State", M: 1}, {K: "Read"}, {K: "Gen", M: 1, Count: 1}, {K: "Read"}},
+	}
+}
+
+// gateCore is a zap core that holds the goroutine logging a chosen message until it is released: a way to stop a
+// request between two of its lock sections without touching PD's code.
+type gateCore struct {
+	zapcore.LevelEnabler
+	mu      sync.Mutex
+	msg     string
+	armed   bool
+	parked  chan struct{}
+	release chan struct{}
+}
+
+func (c *gateCore) With([]zapcore.Field) zapcore.Core { return c }
+func (c *gateCore) Check(e zapcore.Entry, ce *zapcore.CheckedEntry) *zapcore.CheckedEntry {
+	return ce.AddCore(e, c)
+}
+func (c *gateCore) Write(e zapcore.Entry, _ []zapcore.Field) error {
+	c.mu.Lock()
+	hit := c.armed && strings.Contains(e.Message, c.msg)
+	if hit {
+		c.armed = false
+	}
+	c.mu.Unlock()
+	if hit {
+		c.parked <- struct{}{}
+		<-c.release
+	}
+	return nil
+}
+func (c *gateCore) Sync() error { return nil }
+
+// overflowRace: request A overflows the logical part (it will sleep and retry) and is held right after its overflowing
+// generateTSO; the periodic update moves the physical time on (logical := 0); request B is answered from the new
+// millisecond; A continues. Whatever A does with the counter it overflowed must not touch the new millisecond's
+// counter: A's and B's ranges must be disjoint.
+func overflowRace(e *etcdx.Etcd, admin *clientv3.Client, root string, R *res.Result, prop string) {
+	w := &world{e: e, admin: admin, root: root}
+	defer e.CloseFrom(e.Mark())
+	w.mems = append(w.mems, w.newMember(0))
+	x := w.mems[0]
+	if err := x.m.CampaignLeader(60); err != nil {
+		return
+	}
+	if err := x.alloc.Initialize(0); err != nil {
+		return
+	}
+	defer x.am.ResetAllocatorGroup(tso.GlobalDCLocation)
+	gate := &gateCore{LevelEnabler: zapcore.ErrorLevel, msg: "logical part outside of max logical interval", parked: make(chan struct{}, 1), release: make(chan struct{}, 1)}
+	log.ReplaceGlobals(zap.New(gate), nil)
+	defer srv15.Quiet()
+	type ans struct {
+		P, L, C int64
+		err     error
+	}
+	if _, err := x.alloc.GenerateTSO(1<<18 - 2000); err != nil { // logical just below the maximum
+		return
+	}
+	gate.mu.Lock()
+	gate.armed = true
+	gate.mu.Unlock()
+	ach := make(chan ans, 1)
+	go func() {
+		t, err := x.alloc.GenerateTSO(3000) // overflows
+		ach <- ans{t.Physical, t.Logical, 3000, err}
+	}()
+	select {
+	case <-gate.parked:
+	case a := <-ach:
+		R.Notes = append(R.Notes, fmt.Sprintf("overflowRace: the overflowing request was answered at once: %+v", a))
+		return
+	case <-time.After(5 * time.Second):
+		R.Notes = append(R.Notes, "overflowRace: the overflowing request never logged its overflow")
+		return
+	}
+	if err := w.safe("UpdateTSO", x.alloc.UpdateTSO); err != nil { // logical > max/2: physical += 1 ms, logical = 0
+		gate.release <- struct{}{}
+		<-ach
+		return
+	}
+	tb, errb := x.alloc.GenerateTSO(3000)
+	gate.release <- struct{}{}
+	a := <-ach
+	R.Count("overflowRace:probed")
+	if errb != nil || a.err != nil {
+		return
+	}
+	b := ans{tb.Physical, tb.Logical, 3000, nil}
+	// ranges (P, L-C+1 .. L)
+	if a.P == b.P && a.L-a.C+1 <= b.L && b.L-b.C+1 <= a.L {
+		R.Violate(prop+":duplicate-timestamp:overflow-retry-racing-with-update",
+			fmt.Sprintf("request A overflowed the logical part and retried while the physical time was advanced and request B was answered (%d,%d..%d); A was then answered (%d,%d..%d): the ranges overlap", b.P, b.L-b.C+1, b.L, a.P, a.L-a.C+1, a.L),
+			map[string]interface{}{"A": a, "B": b, "scenario": "logical at 2^18-2000; A = GenerateTSO(3000) held after its overflowing generateTSO; UpdateTSO; B = GenerateTSO(3000); A continues"})
 	}
 }
 
@@ -1060,6 +1163,7 @@ func main() {
 				for k := 0; k < 3; k++ {
 					raceReset(e, admin, fmt.Sprintf("/c01/race%d", k), R, *prop)
 				}
+				overflowRace(e, admin, "/c01/overflow", R, *prop)
 			}
 			e.Close()
 		}
